@@ -113,15 +113,16 @@ impl Require {
     /// This will return error for any normal TOML serialization error as well if it's not
     /// possible to serialize as a TOML Table.
     pub fn metadata<T: Serialize>(&mut self, metadata: T) -> Result<(), toml::ser::Error> {
-        if let toml::Value::Table(table) = toml::Value::try_from(metadata)? {
-            self.metadata = table;
+        // `toml::Value::try_from` does not know about TOML datetimes and turns them into tables
+        // with a private marker key. Going through the TOML document serializer keeps every TOML
+        // value kind intact. It also only accepts values that serialize as a table.
+        let table = toml::to_string(&metadata).and_then(|document| {
+            toml::from_str::<Table>(&document).map_err(toml::ser::Error::custom)
+        })?;
 
-            Ok(())
-        } else {
-            Err(toml::ser::Error::custom(String::from(
-                "Couldn't be serialized as a TOML Table.",
-            )))
-        }
+        self.metadata = table;
+
+        Ok(())
     }
 }
 
